@@ -143,6 +143,10 @@ func main() {
 		}
 	}
 	units = append(units, unit{"render", 0, 2}, unit{"render", 1, 2}, unit{"render", 2, 2}, unit{"render", 3, 3}, unit{"dcache3", 0, 2}, unit{"dcache2", 0, 2})
+	// a cache with a long single-threaded history before the concurrent calls (round 8): sub = lookups already made
+	for _, h := range vlib.Pick(c, []int{1022, 4094}, []int{254, 1022, 4094, 16382, 65534}) {
+		units = append(units, unit{"cache-history", h, 2})
+	}
 	chunk := 24
 	nch := (len(units) + chunk - 1) / chunk
 	m := c.RunSharded(nch, func(job int, j *vlib.Job) {
@@ -272,6 +276,34 @@ func main() {
 						prof = sdf.Cache2D(c2)
 					}
 					render.ToTriangles(sdf.Extrude3D(prof, 1), render.NewMarchingCubesUniform(3))
+				}
+			case "cache-history":
+				name = fmt.Sprintf("Cache2D after %d sequential lookups of distinct points", u.sub)
+				body = func() {
+					mismatch = ""
+					c2, _ := sdf.Circle2D(1)
+					cs := sdf.Cache2D(c2)
+					for i := 0; i < u.sub; i++ {
+						cs.Evaluate(v2.Vec{X: float64(i) / 64, Y: -3})
+					}
+					var wg vsync.WaitGroup
+					for t := 0; t < u.threads; t++ {
+						t := t
+						wg.Add(1)
+						vsync.Go(func() {
+							defer wg.Done()
+							for i := 0; i < 3; i++ {
+								p := v2.Vec{X: float64(i) / 4, Y: float64(t + 1)} // distinct points: misses
+								if i == 2 {
+									p = v2.Vec{X: 0.5, Y: 0.25} // the same point in every thread
+								}
+								if g, w := cs.Evaluate(p), c2.Evaluate(p); g != w {
+									mismatch = fmt.Sprintf("cached shape returned %v at %v, the shape itself %v", g, p, w)
+								}
+							}
+						})
+					}
+					wg.Wait()
 				}
 			case "dcache3", "dcache2":
 				name = "renderer distance cache " + u.kind
